@@ -902,13 +902,17 @@ def make_initial_states(c, variables, vt, kw):
         order = order + ['zzz9']
         r.shuffle(order)
     rows = []
+    # every eighth case: all-ones states (valid for either vartype, so bool / unsigned arrays are legal initial states of a
+    # SPIN problem too - and the 'random' / 'tile' generators must still produce -1, not 255, for the rows they add;
+    # round-6 miss C07 r6m3)
+    all_ones = c["init_seed"] % 8 == 3 and not c.get("mismatch")
     for _ in range(c["ninit"]):
         row = [r.choice(vals) for _ in order]
         for _try in range(20):      # prefer distinct rows: order / tiling / truncation become visible
             if row not in rows:
                 break
             row = [r.choice(vals) for _ in order]
-        rows.append(row)
+        rows.append([1] * len(order) if all_ones else row)
     if rows and order:
         raw = c.get("init_raw") or c["init_form"] == 'dicts'
         if c.get("mismatch") == 'badvals':
@@ -937,7 +941,7 @@ def make_initial_states(c, variables, vt, kw):
         else:
             # every dtype that can represent the values (bool / unsigned only for 0/1)
             dts = ['int8', 'int16', 'int32', 'int64', 'float32', 'float64']
-            if ivt == 'BINARY':
+            if ivt == 'BINARY' or (all_ones and rows and order):
                 dts += ['bool', 'uint8', 'uint16', 'uint32', 'uint8', 'bool']
             dt = c.get("init_dtype")
             if dt not in dts:
